@@ -92,11 +92,11 @@ def build(e, shape):
         if not newchrom and shape.get("dups", True):
             dup = e.bit("r%d.dup" % i)
         if symbolic_pos:
-            pos = e.int("r%d.pos" % i, 1, 1000000)
+            pos = e.int("r%d.pos" % i, 1, shape.get("maxpos", 1000000))
             if not newchrom:
                 e.assume(pos == prev if dup else pos > prev)
         else:
-            pos = 10 if newchrom else (prev if dup else prev + 10)
+            pos = shape.get("posbase", 10) if newchrom else (prev if dup else prev + 10)
         prev = pos
         if dup:
             groups[-1].append(i)
@@ -128,9 +128,17 @@ def build(e, shape):
                     c["GT"] = e.choice("r%d.s%d.GT" % (i, s), opts)
                 else:
                     # never read by the writer: symbolic alleles, no forks
-                    a1missing = e.bit("r%d.s%d.a1missing" % (i, s)) if shape.get("nt_missing", len(kinds) == 1) else 0
-                    c["GT"] = (e.int("r%d.s%d.a0" % (i, s), 0, nal), None if a1missing else e.int("r%d.s%d.a1" % (i, s), 0, nal))
-                c["phased"] = e.bool("r%d.s%d.phased" % (i, s)) if len(c["GT"]) >= 2 else True
+                    if shape.get("nt_gt") is not None:
+                        c["GT"] = tuple(min(a, nal) for a in shape["nt_gt"])
+                    else:
+                        a1missing = e.bit("r%d.s%d.a1missing" % (i, s)) if shape.get("nt_missing", len(kinds) == 1) else 0
+                        c["GT"] = (e.int("r%d.s%d.a0" % (i, s), 0, nal), None if a1missing else e.int("r%d.s%d.a1" % (i, s), 0, nal))
+                if len(c["GT"]) < 2:
+                    c["phased"] = True
+                elif shape.get("unphased_input") or (pre == "HP" and shape.get("one_encoding")):
+                    c["phased"] = False  # (C09) a file that carries HP phase information has unphased GTs
+                else:
+                    c["phased"] = e.bool("r%d.s%d.phased" % (i, s))
             else:
                 c["phased"] = False
             if "DP" in fmt:
@@ -138,7 +146,7 @@ def build(e, shape):
             if pre != "none":
                 has = 1 if shape.get("oldfix") else e.bit("r%d.s%d.oldvalue" % (i, s))
                 if pre == "PS":
-                    c["PS"] = e.int("r%d.s%d.oldPS" % (i, s), 1, 1000000) if has else None
+                    c["PS"] = e.int("r%d.s%d.oldPS" % (i, s), 1, shape.get("maxpos", 1000000)) if has else None
                     if "PQ" in fmt:
                         c["PQ"] = e.int("r%d.s%d.oldPQ" % (i, s), 0, 99) if has else None
                 else:
@@ -154,8 +162,10 @@ def build(e, shape):
         records.append(r)
     header = []
     if hv:
-        header.append(("GENERIC", "phasing", "none"))
+        # other free-form lines before and after `phasing=` (only that one may be dropped)
         header.append(("GENERIC", "source", "x"))
+        header.append(("GENERIC", "phasing", "none"))
+        header.append(("GENERIC", "reference", "r"))
     header += [("FILTER", "q10"), ("INFO", "DP", "1", "Integer"), ("FORMAT", "GT", "1", "String"), ("FORMAT", "DP", "1", "Integer")]
     for t in ("PS", "HP", "PQ"):
         if t in used_tags or (hv and t != "PQ"):
@@ -177,6 +187,7 @@ def build(e, shape):
         if c not in order:
             order.append(c)
     sr_at = {}  # (record group index, sample) -> (a0, a1)
+    comp_at = {}  # (record group index, sample) -> component id handed to write()
     for c in order:
         sel = (c in selected) if selected is not None else bool(e.bit("chr%s.selected" % c))
         if not sel:
@@ -216,6 +227,7 @@ def build(e, shape):
                 if comp == len(earlier):
                     earlier.append(pos0)
                 comps[samples[t]][pos0] = earlier[comp]
+                comp_at[(gi, t)] = earlier[comp]
                 sr_at[(gi, t)] = al
         plan.append(("chr" + c, True, srs, comps))
     # Is there a record without an HP key in which write() has something to say (a super-read with decided
@@ -233,7 +245,12 @@ def build(e, shape):
                     het_after = het_after or al[0] != al[1]
             if not het_after:
                 all_unphased = True
-    meta = dict(groups=groups, sr_at=sr_at, targets=targets, tag=tag, only_snvs=only_snvs, mav=mav, all_unphased=all_unphased, nsamp=nsamp)
+    accepted = {}
+    for gi, g in enumerate(groups):
+        acc = [j for j in g if reader_keeps(records[j], only_snvs, mav)]
+        if acc:
+            accepted[gi] = acc[0]
+    meta = dict(groups=groups, sr_at=sr_at, targets=targets, tag=tag, only_snvs=only_snvs, mav=mav, all_unphased=all_unphased, nsamp=nsamp, accepted=accepted, comp_at=comp_at)
     return doc, plan, meta
 
 
